@@ -167,6 +167,11 @@ def scenario(cfg, kind, large):
                 Ly2 = calc.Lij(*y, large_om2=lom2)
                 for n, tname in enumerate(TENSORS):
                     obs.append(('%s:y-%s' % (name, tname), same(Ly2[n], refy[n], symbolic), dict(info, sig='%s:y-%s' % (kind, tname))))
+                # the answer for y obtained AFTER x equals the answer of a calculator that never saw x
+                calc.clearcache()
+                Lyf = calc.Lij(*y, large_om2=lom2)
+                for n, tname in enumerate(TENSORS):
+                    obs.append(('%s:y-fresh-%s' % (name, tname), same(Lyf[n], refy[n], symbolic), dict(info, sig='%s:y-fresh-%s' % (kind, tname))))
             if symbolic:
                 obs.append(('twin:%s:differs-from-y' % name, same(L2[1], calc.Lij(*y, large_om2=lom2)[1], True)))
         return obs
